@@ -1,4 +1,8 @@
 import HclModel.Gohcl.Codec
+import Proofs.GohclAttr
+import Proofs.GohclSchema
+import Proofs.GohclStruct
+import Proofs.GohclCex
 /-!
 # C16 — struct encoding and decoding are inverse
 
@@ -6,42 +10,110 @@ import HclModel.Gohcl.Codec
 (`HclModel/Gohcl/Codec.lean`, tied to the code by the `GOHCL` correspondence over a family of real Go struct
 types).  Between them lies source text: written by hclwrite (C09–C12), read by the parser (C02, C11), literals
 evaluated (C01) — summarised by `reparse`; the JSON route is C03's.
+
+The round trip as first stated (`struct_roundtripFull`) is false in one corner, which is the behaviour of the
+Go code: label fields of the struct handed to `EncodeIntoBody` itself are not part of a body
+(`struct_roundtrip_counterexample`).  It holds exactly when those labels are empty (`struct_roundtrip_iff`),
+and without any side condition one level down, for `EncodeAsBlock` / `decodeBlockToValue`
+(`struct_roundtrip_block`).  Proofs: `Proofs/Gohcl*.lean`.
 -/
 namespace HclModel.Gohcl
 open HclModel.Body
 
 /-- One attribute: a Go value of a gocty-supported type without inner pointers, converted to cty, written out,
     read back, converted to the implied type of the target and loaded into it, is the same Go value. -/
-theorem attr_roundtrip (t : GTy) (v : GVal) (c : Val) (ht : hasTy t v = true) (hp : noPtr t = true)
-    (hc : toCty t v = some c) : decodeExpr t (reparse c) = some v := by
-  sorry
+theorem attr_roundtrip (t : GTy) (v : GVal) (c : Val) (_ht : hasTy t v = true) (hp : noPtr t = true)
+    (hc : toCty t v = some c) : decodeExpr t (reparse c) = some v :=
+  Proofs.attr_roundtrip t v c hp hc
 
 /-- `toCty` is defined on every well-typed value (the encoder does not panic) -/
-theorem toCty_total (t : GTy) (v : GVal) (ht : hasTy t v = true) : (toCty t v).isSome = true := by
-  sorry
+theorem toCty_total (t : GTy) (v : GVal) (ht : hasTy t v = true) : (toCty t v).isSome = true :=
+  Proofs.toCty_isSome t v ht
 
-/-- **Round trip.**  For every well-formed struct type and every value of it, encoding succeeds and decoding
-    the encoded body into a fresh value reproduces the value: attributes, optional attributes, nil and non-nil
-    pointers, slices and maps, labelled, optional and repeated nested blocks, at every depth. -/
-theorem struct_roundtrip (ty : STy) (v : SVal) (fuel : Nat) (hty : ty.wf = true) (hv : v.ok ty = true)
-    (hf : ty.depth ≤ fuel) :
+/-- The round trip as first stated: for every well-formed struct type and every value of it, encoding
+    succeeds and decoding the encoded body into a fresh value reproduces the value.  **False**: see below. -/
+def struct_roundtripFull : Prop :=
+  ∀ (ty : STy) (v : SVal) (fuel : Nat), ty.wf = true → v.ok ty = true → ty.depth ≤ fuel →
+    ∃ b, encodeBody ty v = some b ∧ decodeBody fuel ty b = some v
+
+/-- `type T struct { N string \`hcl:"n,label"\` }`, `T{N: "x"}`: `EncodeIntoBody` ignores label fields ("Any
+    fields tagged as "label" are ignored by this function", `gohcl/encode.go`) and `DecodeBody` never sets
+    them (only `decodeBlockToValue` does, from the block header): the value comes back with `N == ""`. -/
+theorem struct_roundtrip_counterexample : ¬ struct_roundtripFull := by
+  intro h
+  obtain ⟨hw, hok, hd, b, he, hdec⟩ := Proofs.root_label_lost
+  obtain ⟨b', he', hdec'⟩ := h _ _ 1 hw hok hd
+  rw [he, Option.some.injEq] at he'; subst he'
+  rw [hdec] at hdec'
+  simp at hdec'
+
+/-- the label fields of the value itself (not those of nested blocks) are empty -/
+def SVal.rootLabelsBlank (ty : STy) (v : SVal) : Bool :=
+  (labelVals ty.fields v.fields).all (· == "")
+
+/-- **Round trip.**  For every well-formed struct type and every value of it whose own label fields are empty,
+    encoding succeeds and decoding the encoded body into a fresh value reproduces the value: attributes,
+    optional attributes, nil and non-nil pointers, slices and maps, labelled, optional and repeated nested
+    blocks (with their labels), at every depth. -/
+theorem struct_roundtrip_partial (ty : STy) (v : SVal) (fuel : Nat) (hty : ty.wf = true) (hv : v.ok ty = true)
+    (hf : ty.depth ≤ fuel) (hl : v.rootLabelsBlank ty = true) :
     ∃ b, encodeBody ty v = some b ∧ decodeBody fuel ty b = some v := by
-  sorry
+  obtain ⟨fields⟩ := ty
+  obtain ⟨vals⟩ := v
+  exact Proofs.bodyRT fuel fields vals hty (by rwa [Proofs.ok_mk] at hv) hf
+    (by simpa [SVal.rootLabelsBlank, STy.fields, SVal.fields] using hl)
+
+/-- …and the side condition is necessary: the round trip through a body holds exactly for the values whose
+    own label fields are empty. -/
+theorem struct_roundtrip_iff (ty : STy) (v : SVal) (fuel : Nat) (hty : ty.wf = true) (hv : v.ok ty = true)
+    (hf : ty.depth ≤ fuel) :
+    (∃ b, encodeBody ty v = some b ∧ decodeBody fuel ty b = some v) ↔ v.rootLabelsBlank ty = true := by
+  refine ⟨?_, struct_roundtrip_partial ty v fuel hty hv hf⟩
+  obtain ⟨fields⟩ := ty
+  obtain ⟨vals⟩ := v
+  rintro ⟨b, -, hd⟩
+  simpa [SVal.rootLabelsBlank, STy.fields, SVal.fields] using
+    Proofs.decodeBody_labels_blank fuel fields vals b hd
+
+/-- The round trip at full strength, one level down: any value of a well-formed struct type (labels included),
+    encoded as a block (`EncodeAsBlock`) and decoded from it (`decodeBlockToValue`), is reproduced. -/
+theorem struct_roundtrip_block (ty : STy) (v : SVal) (type : String) (fuel : Nat) (hty : ty.wf = true)
+    (hv : v.ok ty = true) (hf : ty.depth ≤ fuel) :
+    ∃ blk, encodeBlock type ty v = some blk ∧ decodeBlock fuel ty blk = some v :=
+  Proofs.blockRT fuel ty hty hf type v hv
+
+section example_
+/-- `type Inner struct { Name string "label"; S string "s"; P *int "p,optional" }` -/
+private def inner : STy := .mk [.label "name", .attr "s" false .str, .attr "p" true (.ptr .int)]
+/-- `type Root struct { N int "n"; Tags []string "tags,optional"; Flags map[string]bool "flags,optional";
+    Items []Inner "item,block"; Extra *Inner "extra,block" }` -/
+private def root : STy :=
+  .mk [.attr "n" false .int, .attr "tags" true (.slice .str), .attr "flags" true (.map .bool),
+       .block "item" .slice inner, .block "extra" .ptr inner]
+private def rootVal : SVal :=
+  .mk [.attr (.int 5), .attr (.slice (some [.str "a", .str "b"])), .attr (.map none),
+       .slice (some [.mk [.label "x", .attr (.str "hello"), .attr (.ptr none)],
+                     .mk [.label "y", .attr (.str ""), .attr (.ptr (some (.int 7)))]]),
+       .ptr (some (.mk [.label "e", .attr (.str "z"), .attr (.ptr none)]))]
+
+example : ∃ b, encodeBody root rootVal = some b ∧ decodeBody 2 root b = some rootVal :=
+  struct_roundtrip_partial root rootVal 2 (by decide) (by decide) (by decide) (by decide)
+end example_
 
 /-- The decoder indexes the label fields of a nested struct by the position of each label of the block
     (`blockTags.Labels[li]`): that is always in range, for **any** body, because the content it iterates over
     was extracted with the implied schema. -/
-theorem labels_in_range (ty : STy) (body : GBody) (hty : ty.wf = true) (hb : (body.attrs.map (·.1)).Nodup) :
+theorem labels_in_range (ty : STy) (body : GBody) (hty : ty.wf = true) (_hb : (body.attrs.map (·.1)).Nodup) :
     ∀ blk ∈ (body.native.content (impliedSchema ty)).1.blocks,
       ∀ shape sty, Field.block blk.type shape sty ∈ ty.fields →
-        blk.labels.length = (labelNames sty.fields).length := by
-  sorry
+        blk.labels.length = (labelNames sty.fields).length :=
+  Proofs.labels_in_range ty body hty
 
 /-- What is lost otherwise (kernel-checked): a non-nil empty slice of blocks comes back nil. -/
 theorem empty_slice_not_preserved :
     let ty : STy := .mk [.block "b" .slice (.mk [])]
     let v : SVal := .mk [.slice (some [])]
-    ∃ b, encodeBody ty v = some b ∧ decodeBody 3 ty b = some (.mk [.slice none]) := by
-  sorry
+    ∃ b, encodeBody ty v = some b ∧ decodeBody 3 ty b = some (.mk [.slice none]) :=
+  Proofs.empty_slice_not_preserved
 
 end HclModel.Gohcl
